@@ -20,11 +20,51 @@ CLAIMED = {
          "For every generated program and every max_cycles in 0..=64: the call returns (120 s watchdog in a monitor process), cycle_count <= max_cycles, rules_fired = callbacks, the pass count / firing sequence / final facts equal REF's, and when the engine stops early no eligible rule is true on its own final facts. Both execute_with_callback and execute are driven.",
          "Trusts REF; termination means 'returns within the 120 s watchdog'; wall-clock timeout disabled as the quantifier says.",
          "DESIGN.md §6 C03"),
+ "C20": ("fault_enumeration",
+         "model-based property testing of checkpoint/restore histories under an injected clock (random + exhaustive short histories) and fault enumeration: every truncation length of the checkpoint file and every intermediate directory state of an interrupted checkpoint is materialised and restored from, cross-checked by real RLIMIT_FSIZE crashes in a child process",
+         "Restore must reproduce the recording taken at checkpoint time (bit-exact floats), ids of listed checkpoints are distinct and every listed id restores; in every enumerated crash state of a checkpoint write, earlier checkpoints restore exactly and the interrupted one restores completely or fails leaving the live state unchanged.",
+         "Crash enumeration assumes the write sequence create_dir_all -> File::create -> write_all -> retention (cross-checked by real size-limited crashes); no fsync/power-loss reordering modelled.",
+         "DESIGN.md §6 C20, §8"),
  "C19": ("exploration",
          "differential property testing under perturbed schedules: generated rule sets x thread configurations, each executed repeatedly with a yield/spin/sleep hook at schedule points inside the worker loop, compared with the sequential path of the same engine and with REF",
          "For every generated configuration and every repetition: the call returns, there is exactly one execution context per enabled rule, the (rule, fired) map and both counters equal the sequential path, and the sequential verdicts equal REF where defined. Schedules are sampled (OS + hook), not enumerated: a sound oracle with stress-level schedule coverage.",
          "Real threads; schedule coverage is whatever the OS and the H5 hook produce. No custom functions, so actions do not change the facts.",
          "DESIGN.md §6 C19, §8"),
+ "C06": ("exploration",
+         "stateful property testing of the incremental RETE engine: generated single-type rule sets converted by the real GRL loader with recorder-wrapped actions, histories of insert/update/retract/fire_all/reset, judged by REF on the matched fact's contents at firing time, a completeness oracle for the first fire_all, and a 4-view working-memory invariant; exhaustive short histories",
+         "Every firing in every generated history is checked at the moment it happens: the matched handle (exposed by a hook) is live and REF says the rule's condition is true of exactly the contents the engine presents; when actions are no-ops and rules no-loop, the first fire_all fires exactly the satisfied rules once; all working-memory views agree after every operation and retracted handles are rejected. Bounded by <= 6 facts, <= 3 types, <= 4 rules, histories <= 15.",
+         "Trusts REF on a well-typed sub-core (absent fields, multi-type joins, multi-operator arithmetic excluded); cross-type activations are not judged.",
+         "DESIGN.md §6 C06"),
+ "C07": ("exploration",
+         "model-based property testing of the RETE agenda (validity predicate on every pop over generated add/pop/mark/focus/reset sequences, exhaustive to length 5-6) and termination testing of the three fire_all entry points with fuel-counting actions under a watchdog",
+         "Every activation returned by get_next_activation must be pending, in the focused group, not excluded by no-loop / fired activation group, and maximal by (salience, earlier created_at) among the definitely eligible ones; fire_all of IncrementalEngine, TypedReteUlEngine and ReteUlEngine must return within its iteration bound for generated always-true and self-re-enabling rule sets.",
+         "created_at is set through the public field for determinism; lock-on-active/auto-focus/ruleflow not exercised; order of the two non-incremental engines not judged.",
+         "DESIGN.md §6 C07"),
+ "C08": ("exploration",
+         "model-based property testing of truth maintenance: generated and exhaustively enumerated histories of explicit/logical insertions, extra justifications and retractions against a least-fixpoint support model, compared for every handle after every operation",
+         "After every operation of every history, presence in working memory of every handle ever issued equals the model's least-fixpoint support verdict; the set returned by retract_with_cascade equals the model's removed set; TMS flags agree. Exhaustive to 8-10 operations on small fact counts (millions of histories per quick run).",
+         "Acyclic support only (premises are live and older than the fact, as the quantifier says); no rules loaded.",
+         "DESIGN.md §6 C08"),
+ "C12": ("exploration",
+         "model-based property testing of windows under an injected clock: generated event sequences in all arrival orders (exhaustive over all orders of 5-6 events) against interval arithmetic, a retention validity predicate and harness-side aggregate folds",
+         "Tumbling placement (WindowedStream, WindowManager, TimeWindow, StreamAlphaNode), sliding retention after every record (nothing older than the span, nothing younger dropped except oldest-first by the cap, either notion of oldest accepted) and count/sum/average/min/max against a fold over exactly the window's events.",
+         "StreamAlphaNode judged relative to the injected clock (hook); NaN payloads and durations < 1 ms outside the domain; buffer order not judged.",
+         "DESIGN.md §6 C12"),
+ "C15": ("exploration",
+         "exhaustive small-scope enumeration of knowledge-base operation sequences against an ordered-list model, and Wing-Gong linearizability checking of recorded 3-thread histories under a schedule-perturbation hook",
+         "All 25^4 (quick) / 25^5 (thorough) operation sequences and 60k-1M random ones are compared observer by observer with the model after every step; 16k-50k concurrent programs x 50-500 repetitions are checked for linearizability against the same model, plus deadlock detection.",
+         "Schedules are sampled (OS + yield hook), not enumerated; the version is modelled relationally (must grow on every real change; rejected duplicate add must not move it).",
+         "DESIGN.md §6 C15, §8"),
+ "C16": ("exploration",
+         "differential property testing of four keyed shortcuts against the plain computation over generated histories with type-twin values (5/\"5\"/5.0, 0.0/-0.0, NaN, true/\"true\"), exhaustive short histories for the alpha and beta indexes",
+         "Every indexed filter equals the linear == scan; every beta lookup returns exactly the live facts carrying the key; every memoised evaluation equals evaluate_typed; the conclusion index (directly and through BackwardEngine) proposes every enabled rule with a Set on the goal field.",
+         "Beta index judged with a validity interval where == and rendering differ (±0.0, NaN); extra candidates from the conclusion index are allowed.",
+         "DESIGN.md §6 C16"),
+ "C17": ("exploration",
+         "model-based property testing of the proof graph: exhaustive enumeration (up to handle renaming) and random generation of insert_proof/invalidate_handle/is_proven histories in every insertion order against a justification-graph fixpoint model",
+         "After every operation get_node().valid, is_proven and lookup_by_key equal 'not invalidated and at least one surviving justification' for every handle; exhaustive to 6 operations on 3 handles and 5 on 4 handles in quick (3.4M histories), deeper in thorough.",
+         "A handle that was ever invalid is not reused as a premise (stricter reading of the quantifier).",
+         "DESIGN.md §6 C17"),
  "C13": ("exploration",
          "model-based property testing (proptest-driven byte strings decoded into timestamp sequences + exhaustive small-scope enumeration) against an executable watermark/late-data model",
          "Every prefix of every generated sequence is compared with a model written from the statement (watermark value and monotonicity, accepted/side-output/dropped routing, statistics, conservation). Random search over lengths up to 12 plus complete enumeration of short sequences over a 6-value domain for 20 configurations; bounded by those sizes, no claim beyond them.",
